@@ -1,3 +1,4 @@
+@batchsz.setter
 def spec(self, value):
     value = argtest.gt('batchsz', value, 0, int)
     if value != self.__batch_size:
